@@ -75,3 +75,10 @@ Global Instance qmin_comp : Proper (Qeq ==> Qeq ==> Qeq) qmin.
 Proof. intros a b H c d H'.
   destruct (qmin_spec a c) as [[L1 E1]|[L1 E1]]; destruct (qmin_spec b d) as [[L2 E2]|[L2 E2]]; rewrite E1, E2;
   try assumption; rewrite H, H' in L1; lra. Qed.
+
+Lemma qround_even_int x k : x == zq k -> qround_even x = k.
+Proof. intros H. unfold qround_even.
+  assert (Hf : Qfloor x = k) by (rewrite H; unfold zq; apply Qfloor_Z).
+  rewrite Hf. assert (Hz : qsub x (zq k) == 0) by (qnorm; rewrite H; ring).
+  assert (Hlt : qlt_b (qsub x (zq k)) (1 # 2) = true) by (apply qlt_b_true; rewrite Hz; reflexivity).
+  rewrite Hlt. reflexivity. Qed.
